@@ -144,8 +144,11 @@ class ArrInterp(ResultInterp):
         if isinstance(a, AMask):
             if name == "astype":
                 dt = self._dtype(args[0]) if args else None
-                out = AArr(a.of.side, True, "bin" if a.kind == "nonzero" else f"opaque:mask {a.kind}", a.of.selection)
-                return out
+                if a.kind == "nonzero":
+                    return AArr(a.of.side, True, "bin" if a.of.content in ("labels", "bin", "bool") else a.of.content, a.of.selection)
+                if a.kind == "isin" and a.of.selection is None and a.of.content == "labels":
+                    return AArr(a.of.side, True, "bin", ("keep", a.detail))
+                return AArr(a.of.side, True, f"opaque:mask {a.kind}", a.of.selection)
             if name in ("sum", "any"):
                 if a.kind == "nonzero":
                     return EmptyTest(a.of, negate=True) if name == "any" else Reduction("count", a.of)
@@ -293,6 +296,14 @@ class ArrInterp(ResultInterp):
             m = args[0]
             if m.kind == "nonzero" and args[1] == 1 and args[2] == 0:
                 return AArr(m.of.side, True, "bin", m.of.selection)
+            if m.kind == "isin" and args[1] is m.of and args[2] == 0 and m.of.selection is None:
+                out = AArr(m.of.side, True, m.of.content, ("keep", m.detail))
+                out.casts = list(m.of.casts)
+                return out
+            if m.kind == "notin" and args[2] is m.of and args[1] == 0 and m.of.selection is None:
+                out = AArr(m.of.side, True, m.of.content, ("keep", m.detail))
+                out.casts = list(m.of.casts)
+                return out
             return AArr(m.of.side, True, f"opaque:where {m!r}", m.of.selection)
         if name in ("int", "builtin:int") and args and isinstance(args[0], EmptyTest):
             return int(self.truth(args[0], node))
@@ -305,6 +316,12 @@ class ArrInterp(ResultInterp):
             t = self.truth(args[0], node)
             return int(t) if name == "int" else t
         return super().call_builtin(name, args, kwargs, node)
+
+    def isinstance_hook(self, v, klass, node):
+        if isinstance(v, (AArr, AMask)):
+            ks = klass if isinstance(klass, tuple) else (klass,)
+            return any(isinstance(k, Sym) and k.name.endswith("numpy.ndarray") for k in ks)
+        return super().isinstance_hook(v, klass, node)
 
     def binop_hook(self, op, l, r, node):
         if isinstance(l, AMask) and isinstance(r, AMask) and isinstance(op, (ast.BitAnd, ast.BitOr)):
